@@ -135,7 +135,7 @@ class Unit:
 
 class Job:
     def __init__(self, name, harness, units=(), entry='harness', unwind=None, unwindset=(), defines=(),
-                 flags=(), kind='obligation', timeout=600, mem_gb=6, decisive=None, sample=None,
+                 flags=(), kind='obligation', timeout=600, mem_gb=6, decisive=None, sample=None, nobody_ok=(),
                  native=True, native_globalize=(), group=None, checks=True, object_bits=None, cost=1,
                  expect_fail_desc=None, harness_text=None, funcs=(), nowitness=False, native_libs=('-lblkid', '-lpthread'),
                  solver='kissat', native_defines=(), cflags=(), finding_key=None):
@@ -153,6 +153,7 @@ class Job:
         self.kind = kind              # 'obligation' (must be UNSAT) or 'negctl' (must be SAT, deliberately wrong oracle)
         self.timeout = timeout
         self.mem_gb = mem_gb
+        self.nobody_ok = tuple(nobody_ok)
         self.decisive = decisive      # regex on property description; None = every property decides
         self.sample = sample or {}
         self.native = native
@@ -402,6 +403,28 @@ def run_job(job, log):
         log('[%s] BUILD BROKEN: %s' % (job.name, str(e)[-1500:]))
         return res
     res['dir'] = d
+    if os.environ.get('VERIF_PROF'):
+        # development aid (never used by a registered command): symbolic execution only, report where it stalls
+        sec = int(os.environ['VERIF_PROF'])
+        cmd = [c for c in job.cbmc_cmd(allgb) if c != '--json-ui']
+        cmd[cmd.index('--verbosity') + 1] = '10'
+        for sv in (['--external-sat-solver', 'kissat'], ['--cvc5', '--slice-formula'], ['--z3']):
+            if sv[0] in cmd:
+                i = cmd.index(sv[0]); del cmd[i:i + len(sv)]
+        cmd += ['--dimacs', '--outfile', '/dev/null']
+        pr = subprocess.Popen(['timeout', str(sec)] + cmd, stdout=subprocess.PIPE, stderr=subprocess.STDOUT, text=True, errors='replace')
+        last = time.time(); prev = ''; stalls = []; n = 0
+        for line in pr.stdout:
+            now = time.time(); n += 1
+            if now - last >= 2.0:
+                stalls.append((now - last, prev.strip()[:200]))
+            last = now; prev = line
+            if 'Generated' in line or 'size of program' in line: stalls.append((0, line.strip()))
+        pr.wait()
+        log('[%s] PROF: %d lines in %ds, rc=%s, last: %s' % (job.name, n, time.time() - t0, pr.returncode, prev.strip()[:200]))
+        for dt, l in stalls: log('    stall %5.1fs after: %s' % (dt, l))
+        res['status'] = 'undecided'; res['detail'] = 'profiling run'
+        return res
     # ---------------- main query
     cmd = job.cbmc_cmd(allgb)
     res['checker_cmd'] = ' '.join(cmd).replace(scratch(), '$SCRATCH')
@@ -431,6 +454,16 @@ def run_job(job, log):
     res['ub_reports'] = [desc(p) for p in ub][:20]
     wit = [p for p in failing if 'VF_WITNESS' in p.get('description', '')]
     failing = [p for p in failing if 'VF_WITNESS' not in p.get('description', '')]
+    # a reachable call of a function without a body returns an unconstrained value and has no side effects: the harness is
+    # incomplete (never a verdict about the code) unless the job lists the callee as deliberately left open
+    nobody = sorted(set(p.get('property', '').split('.no-body.')[1] for p in failing if '.no-body.' in p.get('property', '')))
+    failing = [p for p in failing if '.no-body.' not in p.get('property', '')]
+    res['bodyless_callees'] = nobody
+    missing = [c for c in nobody if c not in job.nobody_ok]
+    if missing:
+        res['status'] = 'broken'; res['detail'] = 'reachable call of a function without a body (add a stub or list it in nobody_ok): ' + ', '.join(missing)
+        log('[%s] BROKEN: %s' % (job.name, res['detail']))
+        return res
     if job.decisive:
         rx = re.compile(job.decisive)
         ignored = [p for p in failing if not rx.search(desc(p))]
@@ -611,6 +644,14 @@ def finish(prop, tier, seed, jobs, t0, level='model_checking', assumptions=(), t
             disagreements.append(j)
             continue
         viol.append(j)
+    # a witness job of a finding that is NOT (or no longer) listed in known_findings.txt is an ordinary violation
+    for j in knownjobs:
+        if j.result and j.result.get('status') == 'known-present' and j.finding_key not in kf:
+            rp = os.path.join(VERIF, 'replay', '%s-%s.json' % (prop, re.sub(r'[^A-Za-z0-9_.-]', '_', j.name)))
+            json.dump({'property': prop, 'job': j.name, 'sample': j.sample, 'failed': (j.result.get('failing') or [None])[0], 'checker_cmd': j.result.get('checker_cmd'),
+                       'harness': j.harness, 'entry': j.entry, 'defines': j.defines}, open(rp, 'w'), indent=1)
+            j.result['replay_file'] = rp; j.result['cex_property'] = (j.result.get('failing') or [None])[0]
+            viol.append(j)
     traces_validated = sum(1 for j in jobs if j.result and str(j.result.get('replay', '')) == 'reproduced')
     wall = time.time() - t0
     funcs = sorted(set(f for j in jobs for f in j.funcs))
